@@ -110,12 +110,22 @@ def run_check(prop: str, fn: Callable[[Ctx], None], root: str, tier: str, seed: 
     try:
         model = Model(root)
         ctx = Ctx(prop, model, tier, seed)
-        fn(ctx)
+        known_keys = {f"{kf['rule']}|{kf['key']}" for kf in load_known().get(prop, [])}
+
+        def new_failures():
+            return [o for o in ctx.obs if not o.ok and o.key not in known_keys]
+        try:
+            fn(ctx)
+        except AnalysisError as e:
+            # a rule could not complete; if definite NEW violations were already established, report those
+            if not new_failures():
+                raise
+            ctx.note(f'analysis stopped early: {e}')
         # instance floors: a rule that matched fewer sites than confirmed by hand is a vanished anchor
         counts: Dict[str, int] = {r: 0 for r in ctx.rules}
         for o in ctx.obs:
             counts[o.rule] += 1
-        has_failing = any(not o.ok for o in ctx.obs)
+        has_failing = bool(new_failures())
         for r, floor in ctx.floors.items():
             if counts[r] < floor:
                 if has_failing:
